@@ -88,11 +88,10 @@ Variant(ti, r) ==
     [] OTHER -> Pat(segs, FALSE, <<>>, "")
 VariantsOf(ti) == {0, ((Weight(segs, 1) + ti) % 6) + 1}
 
-Outcome(ti, r) ==
-  LET p == Variant(ti, r)
-      mu == MustC(Cands[ti], p, <<>>)
-      ma == MayC(Cands[ti], p, <<>>)
-  IN [ti |-> ti, nomatchok |-> p.nomatchok, buts |-> p.buts, type |-> p.type, must |-> mu, may |-> ma \ mu]
+Outcome(ti, r, mi) ==
+  LET p  == Variant(ti, r)
+      mu == MustOf(mi, p)
+  IN [ti |-> ti, nomatchok |-> p.nomatchok, buts |-> p.buts, type |-> p.type, must |-> mu, may |-> MayOf(mi, p) \ mu]
 
 (* ---- design theorems (M) ---- *)
 NoHiddenNoDotLit(s) == \A i \in 1..Len(s) : (IsWild(s[i]) => ~s[i].h)
@@ -109,8 +108,9 @@ Theorems ==
     \A ti \in 1..Len(Trees) :
       LET T  == Trees[ti]
           P  == Pat(segs, FALSE, <<>>, "")
-          mu == MustC(Cands[ti], P, <<>>)
-          ma == MayC(Cands[ti], P, <<>>)
+          mi == Matched(Cands[ti], segs, <<>>)
+          mu == MustOf(mi, P)
+          ma == MayOf(mi, P)
       IN /\ mu \subseteq ma                                           \* strict => lenient
          /\ \A p \in ma : Walk(T, p).ok                               \* Expand \subseteq existing paths
          /\ (NoHiddenNoDotLit(segs) => \A p \in ma : ~HasHiddenComp(p))   \* no hidden component without match-hidden
@@ -124,6 +124,6 @@ Emit ==
   IF segs = <<>> THEN PrintT(ToJson([trees |-> Trees]))
   ELSE Complete(segs) =>
          PrintT(ToJson([segs |-> segs,
-                        out |-> {Outcome(ti, r) : ti \in 1..Len(Trees), r \in {0}} \cup
-                                UNION {{Outcome(ti, r) : r \in VariantsOf(ti) \ {0}} : ti \in 1..Len(Trees)}]))
+                        out |-> UNION {LET mi == Matched(Cands[ti], segs, <<>>)
+                                       IN {Outcome(ti, r, mi) : r \in VariantsOf(ti)} : ti \in 1..Len(Trees)}]))
 =============================================================================
